@@ -155,6 +155,35 @@ func H_C14_Serialize() {
 	zzverif.Reach("parsed")
 }
 
+// C14: the public counterpart of an extended private key keeps network and script type: SLIP-132 / BIP32 version
+// bytes (xprv-xpub, yprv-ypub, zprv-zpub, tprv-tpub, uprv-upub, vprv-vpub; the reference values are the specification's
+// literals, not the package constants), depth, index, fingerprint and chain code carried over, the key replaced by
+// the public key; the address of both is the same. Any other version is left alone.
+func H_C14_PublicPrefix() {
+	h_stub_ec()
+	table := [][2]uint32{{0x0488ADE4, 0x0488B21E}, {0x049D7878, 0x049D7CB2}, {0x04B2430C, 0x04B24746},
+		{0x04358394, 0x043587CF}, {0x044A4E28, 0x044A5262}, {0x045F18BC, 0x045F1CF6}}
+	which := zzverif.Enum("prefix", len(table)+1)
+	w := &HDWallet{Depth: zzverif.U8("depth"), I: zzverif.U32("i"), ChCode: zzverif.Bytes("chain", 32), Key: append([]byte{0}, zzverif.Bytes("k", 32)...)}
+	copy(w.Checksum[:], zzverif.Bytes("fingerprint", 4))
+	if which == len(table) {
+		w.Prefix = zzverif.U32("other-version")
+		for _, t := range table {
+			zzverif.Assume(w.Prefix != t[0] && w.Prefix != t[1])
+		}
+		zzverif.Assert("C14.pubprefix.other-untouched", PublishHDPrefix(w.Prefix) == w.Prefix)
+		return
+	}
+	w.Prefix = table[which][0]
+	pub := w.Pub()
+	zzverif.Assert("C14.pubprefix.version", pub.Prefix == table[which][1])
+	zzverif.Assert("C14.pubprefix.fields", pub.Depth == w.Depth && pub.I == w.I && pub.Checksum == w.Checksum && bytes.Equal(pub.ChCode, w.ChCode) &&
+		bytes.Equal(pub.Key, PublicFromPrivate(w.Key[1:], true)))
+	zzverif.Assert("C14.pubprefix.testnet", IsTestnetHDPrefix(pub.Prefix) == (which >= 3) && IsPublicHDPrefix(pub.Prefix) && !IsPrivateHDPrefix(pub.Prefix))
+	zzverif.Assert("C14.pubprefix.pub-of-pub", pub.Pub().Prefix == pub.Prefix)
+	zzverif.Reach("published")
+}
+
 // C14: WIF export / import round trip (compressed and uncompressed keys, any version byte). Base58 is bypassed
 // (C15), the public key is the uninterpreted function of the private key.
 func H_C14_WIF() {
